@@ -22,7 +22,7 @@ func suspicious(s *scenario, o *observation) bool {
 		return false
 	}
 	switch s.kind {
-	case "FINISHED", "RFINISHED", "INTERNAL":
+	case "FINISHED", "RFINISHED":
 		return false
 	}
 	for _, v := range o.victims {
